@@ -163,12 +163,16 @@ structure Ext (A B : Auto) : Prop where
   pool_eq : B.pool = A.pool
   old : ∀ j, j < A.states.size → (B.st j).path = (A.st j).path ∧ (B.st j).matchesRef = (A.st j).matchesRef
   new : ∀ j, A.states.size ≤ j → (B.st j).matchesRef = 0
+  slot0 : 0 < A.states.size → (B.st 0).slot = (A.st 0).slot
 
 theorem Ext.refl (A : Auto) : Ext A A :=
-  ⟨Nat.le_refl _, rfl, fun _ _ => ⟨rfl, rfl⟩, fun j hj => by rw [st_default A j hj]; rfl⟩
+  ⟨Nat.le_refl _, rfl, fun _ _ => ⟨rfl, rfl⟩, fun j hj => by rw [st_default A j hj]; rfl, fun _ => rfl⟩
 
 theorem Ext.trans {A B C : Auto} (h1 : Ext A B) (h2 : Ext B C) : Ext A C := by
-  refine ⟨Nat.le_trans h1.size_le h2.size_le, by rw [h2.pool_eq, h1.pool_eq], ?_, ?_⟩
+  refine ⟨Nat.le_trans h1.size_le h2.size_le, by rw [h2.pool_eq, h1.pool_eq], ?_, ?_, ?_⟩
+  rotate_left 2
+  · intro h0
+    rw [h2.slot0 (Nat.lt_of_lt_of_le h0 h1.size_le), h1.slot0 h0]
   · intro j hj
     have a := h1.old j hj
     have b := h2.old j (Nat.lt_of_lt_of_le hj h1.size_le)
@@ -179,7 +183,12 @@ theorem Ext.trans {A B C : Auto} (h1 : Ext A B) (h2 : Ext B C) : Ext A C := by
     · exact h2.new j (by omega)
 
 theorem createState_ext (A : Auto) (s : Nat) (c : UInt8) (hs : s < A.states.size) : Ext A (createState A s c).1 := by
-  refine ⟨by rw [createState_size]; omega, rfl, ?_, ?_⟩
+  refine ⟨by rw [createState_size]; omega, rfl, ?_, ?_, ?_⟩
+  rotate_left 2
+  · intro h0
+    by_cases e : 0 = s
+    · subst e; rw [createState_parent A 0 c hs]
+    · rw [createState_other A s c 0 (by omega) e]
   · intro j hj
     have := createState_old A s c hs j (by omega)
     exact ⟨this.2.2.1, this.2.2.2.1⟩
@@ -223,6 +232,7 @@ structure P1 (A : Auto) (atoms : List (Nat × Atom)) : Prop where
   pool_info : ∀ (e : Nat) (a : Nat × Atom), atoms[e]? = some a → ∃ nx, A.pool[e]? = some (a.1, a.2.bytes.length + a.2.backtrack, nx)
   atoms_in : ∀ a ∈ atoms, ∃ s, s < A.states.size ∧ (A.st s).path = a.2.bytes
   chains : ∀ s, s < A.states.size → ChainSeg A.pool (A.st s).matchesRef (ownIdx atoms (A.st s).path) 0
+  root_slot : (A.st 0).slot = 0
 
 theorem poolNextAt_push (pool : Array (Nat × Nat × Nat)) (x : Nat × Nat × Nat) (e : Nat) (h : e < pool.size) :
     poolNextAt (pool.push x) e = poolNextAt pool e := by
@@ -253,7 +263,7 @@ theorem P1_empty : P1 empty [] := by
     cases j with
     | zero => rfl
     | succ j => rfl
-  refine ⟨⟨by simp [empty], by rw [hst]; rfl, ?_, ?_, ?_, ?_, ?_, ?_⟩, rfl, ?_, ?_, ?_⟩
+  refine ⟨⟨by simp [empty], by rw [hst]; rfl, ?_, ?_, ?_, ?_, ?_, ?_⟩, rfl, ?_, ?_, ?_, by rw [hst]; rfl⟩
   · intro s _ c hc; rw [hst] at hc; cases hc
   · intro s _ c hc; rw [hst] at hc; cases hc
   · intro s _; rw [hst]; rfl
@@ -359,6 +369,11 @@ theorem addAtom_P1 {A : Auto} {atoms : List (Nat × Atom)} (h : P1 A atoms) (a :
         exact e (hT1.path_inj j s hj hs (by rw [← hh, hp]))
       rw [if_neg hne]
       exact (hchain1 j hj).push _
+  · rw [hB]
+    have h0 : (A1.st 0).slot = 0 := by rw [hE.slot0 h.trie.size_pos]; exact h.root_slot
+    split
+    · exact h0
+    · exact h0
 
 theorem foldl_addAtom_P1 (rest : List (Nat × Atom)) : ∀ (done : List (Nat × Atom)) (A : Auto), P1 A done →
     P1 (rest.foldl addAtom A) (done ++ rest) := by
